@@ -3161,7 +3161,8 @@ func (c *Checker) checkYieldExpressionNode(node *ast.YieldExpressionNode) ast.Ex
 	if node.Value == nil {
 		typ = types.Nil{}
 	} else {
-		node.Value = c.checkExpressionWithTailPosition(node.Value, true)
+		// the generator resumes after the yield: its operand is not in tail position
+		node.Value = c.checkExpressionWithTailPosition(node.Value, false)
 		typ = c.typeOfGuardVoid(node.Value)
 	}
 
